@@ -42,4 +42,23 @@ def run(P, ctx):
     from rules import leftright
     leftright.check(P, res, "C08-3", r"^fibre::<?spmc::topic::", 4)
     leftright.check_relative(P, res, "C08-4", r"^fibre::<?spmc::topic::", 4)
+    rid = "C08-5"
+    res.rule(rid, "a topic's subscriber list is never unhooked from the dispatcher while the channel lives: nothing removes an entry from the dispatcher's topic map "
+                  "(papaya map `subscriptions`: remove / remove_if / retain / clear / take) — `subscribe` fetches the list's Arc from the map and pushes its mailbox afterwards, so "
+                  "an entry removed in between leaves the new subscriber on an orphaned list that neither `send` nor the last sender's disconnect can reach")
+    n5 = 0
+    for b in P.bodies.values():
+        if not re.search(r"^fibre::<?spmc::topic::", b.id) or "::tests::" in b.id:
+            continue
+        for e in b.calls():
+            if "papaya" not in (e.callee or "") and "papaya" not in (e.callee_full or ""):
+                continue
+            n5 += 1
+            if e.method in ("remove", "remove_if", "remove_entry", "retain", "clear", "take", "compute", "update_or_remove"):
+                res.violated(rid, f"{b.id}:{e.method}", f"{b.name} removes topic entries from the dispatcher map at {e.loc}: a concurrent subscribe that already fetched the list "
+                             "pushes its mailbox into an orphaned list (never delivered to, never disconnected)", where=e.loc)
+    if n5 < 3:
+        res.unclassified(rid, "topic-map-sites", f"expected >= 3 uses of the dispatcher's topic map, found {n5}: the map type changed, re-read it", where="rules/c08.py")
+    elif not any(i.rule == rid for i in res.instances):
+        res.holds(rid, "topic-map", f"{n5} uses of the dispatcher's topic map, none removes an entry", where="channels/src/spmc/topic/core.rs")
     return res
